@@ -19,6 +19,12 @@ Oracle, per primary contig of length L (three passes so that one failure class c
 Signatures carry /synthetic or /real (real = unmodified GRCh37/38 lengths, i.e. reachable through
 `hl.vds.new_combiner(import_interval_size=..., reference_genome='GRCh38')`).
 
+Result on the unchanged tree: passes 2 and 3 fire (see the report / known findings): `while n < contig_length` never
+emits an interval starting at the last base, so a contig whose length is 1 modulo (real_size + 1) loses its last base
+(e.g. GRCh38, size 21913: chr2:242193529; any contig of length 1), and `end = n + real_size` makes every full interval
+real_size + 1 bases long, which exceeds `interval_size` whenever ceil(L / ceil(L / size)) == size (e.g. GRCh38, size
+124478211 = len(chr1)/2 -> [1, 124478212]).  With `while n <= contig_length` / `end = n + real_size - 1` 400 runs pass.
+
 Sensitivity (mutations of combine.py in a scratch copy): `n = end` (overlap by one base) -> C38/partition/overlap;
 `n = end + 2` -> C38/partition/gap; `end = min(n + real_size, contig_length - 1)` -> tail_uncovered;
 `real_size = contig_length // n_parts + 2` -> interval_longer_than_requested; `contigs[:-1]` -> tail_uncovered (chrM).
